@@ -749,3 +749,17 @@ GROUPS["p11"] += [
       "        let name = file_dict_name(url)?;\n        let path = config.file_dict_path.join(name);\n        Ok(path.clone())",
       None),
 ]
+
+# C08: text altered on ingestion (the shape of seeded/C08-d) / copied into an owned string first (same text)
+GROUPS["g23"] += [
+    E("c08-strip-on-ingest", ["C08"], "harper-ls/src/backend.rs",
+      "    ) -> Result<()> {\n        self.pull_config().await;\n\n        // Copy necessary configuration to avoid holding lock.",
+      "    ) -> Result<()> {\n        let text = text.replace('\\u{00AD}', \"\");\n        let text = text.as_str();\n        self.pull_config().await;\n\n        // Copy necessary configuration to avoid holding lock.",
+      "R-C08-verbatim:Backend::update_document:Document::new"),
+]
+GROUPS["p11"] += [
+    E("p-c08-owned-copy-on-ingest", ["C08"], "harper-ls/src/backend.rs",
+      "    ) -> Result<()> {\n        self.pull_config().await;\n\n        // Copy necessary configuration to avoid holding lock.",
+      "    ) -> Result<()> {\n        let text = text.to_owned();\n        let text = text.as_str();\n        self.pull_config().await;\n\n        // Copy necessary configuration to avoid holding lock.",
+      None),
+]
